@@ -101,7 +101,7 @@ def bounded(pb, interp, rng, tier):
     schedulers = ["synchronous", "threads"] + (["processes"] if tier == "thorough" else [])
 
     def fail(what, inst, detail):
-        if len(fails) < 30:
+        if sum(1 for f_ in fails if f_["what"] == what) < 8:      # cap per kind: a known finding must not crowd out a new failure
             fails.append({"function": "pulsarbat (Dask back end)", "what": what, "instance": inst, "inputs": {"case": inst}, "observed": str(detail)[:200], "status": "mismatch"})
 
     for name, mk_name, op in ops:
